@@ -63,7 +63,7 @@ Hard        == [k |-> "hard", a |-> "", b |-> ""]        \* backslash + line end
 (* "{SZ}" stands for LATIN CAPITAL LETTER SHARP S (the harness puts the character in): it matches "SS" by Unicode case folding *)
 Base(l) == CASE l \in {"foo", "FOO", "Foo"}           -> "foo"
              [] l \in {"{SZ}", "SS", "ss"}            -> "ss"
-             [] l \in {"bar baz", "Bar  BAZ"}         -> "bar baz"
+             [] l \in {"bar baz", "Bar  BAZ", "bar{TAB}baz"} -> "bar baz"       \* "{TAB}": the harness puts a tab character in
              [] OTHER                                 -> l
 LabelPool == Pick({"foo", "FOO"}, {"foo", "FOO", "foob"}, {"foo", "FOO", "bar baz", "Bar  BAZ", "foob"})
 
@@ -129,7 +129,7 @@ LineSeq(n) ==
             <<W(w), Raw("_[ln](/uri)_", "<em><a href=\"/uri\">ln</a></em>"), W("x")>>, <<Raw("**`co`**", "<strong><code>co</code></strong>"), W(w)>>,
             <<W(w), Raw("**_[ln](/uri)_**", "<strong><em><a href=\"/uri\">ln</a></em></strong>")>>, <<Raw("(_\"a\"_)", "(<em>\"a\"</em>)"), W(w)>>,
             <<W(w), Raw("*__`co`__*", "<em><strong><code>co</code></strong></em>"), W("x")>>,
-            <<W(w), Ref("{SZ}")>>, <<Ref("SS"), W(w)>> >>)
+            <<W(w), Ref("{SZ}")>>, <<Ref("SS"), W(w)>>, <<W(w), Ref("bar{TAB}baz")>> >>)
 
 (* spelling variants: every action draws one index v and derives its free spelling choices from it, so that in
    simulation mode every kind of block is typed about equally often; over many documents all combinations occur *)
@@ -176,9 +176,9 @@ SepLines(sep) == IF sep = "blank" THEN <<BlankLine>> ELSE << >>
 (* may `next` follow the previous sibling without a blank line?  (CommonMark: what may interrupt a paragraph; nothing
    merges with a heading, a thematic break, a closed fence or a definition; a closed container needs a blank line
    here; indented code is always typed after a blank line) *)
-AfterPara == {"atx", "fence", "quote", "hrstar", "blist", "olist1"}
+AfterPara == {"atx", "fence", "quote", "hrstar", "blist", "olist1", "html"}
 NoBlankOk(next) ==
-    CASE last.kind \in {"atx", "setext", "hr", "fence", "def"} -> next # "code"
+    CASE last.kind \in {"atx", "setext", "hr", "fence", "def"} -> next \notin {"code", "table"}
       [] last.kind = "para"  -> next \in AfterPara
       [] OTHER -> FALSE
 
@@ -294,11 +294,51 @@ TypeFence ==
 TypeIndented ==
     \E two \in BOOLEAN :
        /\ last.kind \notin {"code", "list"}
-       /\ ~InItemFirstLine /\ ~DefInItem
+       /\ (InItemFirstLine => Top.pad = 1)      \* "-     code": one space of padding, then the four of the code block
+       /\ ~DefInItem
        /\ LET body == IF two THEN <<"code one", "  code two">> ELSE <<"code one">>
               sep == IF last.kind = "none" THEN "none" ELSE "blank" IN
           Leaf("code", "code", sep, Node("BlockCode", Parent, 0, 0, NoText, [info |-> "", body |-> body]),
                [i \in DOMAIN body |-> "    " \o body[i]], Depth)
+       /\ UNCHANGED tags
+
+(* GFM table: header row, delimiter row, one or two body rows (a short row is padded with empty cells).  Always typed
+   after a blank line and followed by one: a table may swallow or be swallowed by adjacent paragraph text. *)
+TypeTable ==
+    \E v \in Variants :
+       LET outer == v % 2 = 0                                   \* leading and trailing pipes
+           aligns == At(<< <<"---", "---">>, <<":--", ":-:">>, <<"--:", "-">>, <<":---:", "---">> >>, v)
+           w == WordAt(nblocks + 1)
+           hdr == <<"h" \o w, "*em*">>
+           rows == IF v % 3 = 0 THEN << <<w, "two">> >> ELSE IF v % 3 = 1 THEN << <<w, "`co`">>, <<"short">> >> ELSE << <<"a " \o w, "b">>, <<"c", "d">> >>
+           Line(cells) == IF outer THEN "| " \o Join(cells, " | ") \o " |" ELSE Join(cells, " | ")
+           DLine == IF outer THEN "|" \o Join(aligns, "|") \o "|" ELSE Join(aligns, " | ")
+           lines == <<Line(hdr), DLine>> \o [i \in DOMAIN rows |-> IF Len(rows[i]) = 1 /\ ~outer THEN rows[i][1] \o " |" ELSE Line(rows[i])]
+           sep == IF last.kind = "none" THEN "none" ELSE "blank"
+           base == Len(src) + Len(SepLines(sep))
+           tid == Len(nodes) + 1
+           rowNodes(i) == <<Node("TableRow", tid, base + 2 + i, 0, NoText, "")>>
+                          \o [c \in 1..2 |-> Node("TableCell", tid + 1 + 3 * (i - 1), base + 2 + i, 0, NoText, "")]
+           allRows == IF Len(rows) = 1 THEN rowNodes(1) ELSE rowNodes(1) \o rowNodes(2) IN
+       /\ Budget /\ FirstKindOk("table")
+       /\ ~DefInItem
+       /\ src' = src \o SepLines(sep) \o <<PrefixNow(open) \o lines[1]>> \o [i \in 1..(Len(lines) - 1) |-> PrefixRest(open) \o lines[i + 1]]
+       /\ nodes' = Append(nodes, Node("Table", Parent, base + 1, 0, NoText, [aligns |-> aligns, hdr |-> hdr, rows |-> rows])) \o allRows
+       /\ loose' = LooseAfter(sep)
+       /\ open' = Started(open)
+       /\ last' = [kind |-> "table", mtype |-> ""]
+       /\ nblocks' = nblocks + 1
+       /\ tags' = tags \cup (IF InItemFirstLine THEN {"table-on-marker-line"} ELSE {})
+       /\ UNCHANGED <<defs, phase, target>>
+
+(* HTML block: type 6 (<div>, ends at a blank line), type 1 (<pre>, ends at its end tag, may hold blank lines), type 2
+   (comment).  May interrupt a paragraph; what follows needs a blank line (types 6) - typed after every kind for simplicity. *)
+HtmlBodies == << <<"<div>", "*raw* text", "</div>">>, <<"<div class=\"x\">hi</div>">>, <<"<pre>", "a", "", "  b", "</pre>">>, <<"<!-- c", "", "d -->">>, <<"<table><tr><td>", "x", "</td></tr></table>">> >>
+TypeHtml ==
+    \E sep \in Seps, v \in Variants :
+       LET body == At(HtmlBodies, v) IN
+       /\ ~InItemFirstLine \/ TRUE
+       /\ Leaf("html", "html", sep, Node("HtmlBlock", Parent, 0, 0, NoText, [body |-> body]), body, Depth)
        /\ UNCHANGED tags
 
 (* link reference definition: no node, no output *)
@@ -309,7 +349,7 @@ TitleOf(t) == IF t = "" THEN "" ELSE SubSeq(t, 3, Len(t) - 1)
 
 TypeDef ==
     \E sep \in Seps, v \in Variants :
-       LET l == At(Pick(<<"foo", "FOO">>, <<"foo", "FOO", "foob">>, <<"foo", "FOO", "bar baz", "Bar  BAZ", "foob", "SS", "{SZ}">>), v)
+       LET l == At(Pick(<<"foo", "FOO">>, <<"foo", "FOO", "foob">>, <<"foo", "FOO", "bar baz", "Bar  BAZ", "foob", "SS", "{SZ}", "bar{TAB}baz">>), v)
            d == At(Pick(<<"/u1", "/u2">>, <<"/u1", "/u2">>, <<"/u1", "/u2", "<a b>">>), v + nblocks)
            t == At(Pick(<<"">>, <<"", " \"t1\"">>, <<"", " \"t1\"", " 't2'", " (t3)">>), v \div 2) IN
        /\ Budget
@@ -423,7 +463,7 @@ Init ==
     /\ last = [kind |-> "none", mtype |-> ""] /\ nblocks = 0 /\ phase = "typing" /\ tags = {}
     /\ target \in (IF Rich THEN 2..MaxBlocks ELSE {1})
 
-Next == TypePara \/ TypeAtx \/ TypeSetext \/ TypeHr \/ TypeFence \/ TypeIndented \/ TypeDef
+Next == TypePara \/ TypeAtx \/ TypeSetext \/ TypeHr \/ TypeFence \/ TypeIndented \/ TypeDef \/ TypeTable \/ TypeHtml
         \/ OpenQuote \/ OpenList \/ NextItem \/ (Close /\ UNCHANGED tags) \/ (Finish /\ UNCHANGED tags)
 
 ---------------------------------------------------------------------------
@@ -434,6 +474,16 @@ Kids(n) == LET S == {i \in DOMAIN nodes : nodes[i].p = n} IN
 CodeHtml(x) == "<pre><code" \o (IF x.info = "" THEN "" ELSE " class=\"language-" \o x.info \o "\"") \o ">"
                \o Join(x.body, "\n") \o (IF x.body = << >> THEN "" ELSE "\n") \o "</code></pre>"
 
+(* cell text: words, *em* and `co` only *)
+CellHtml(c) == IF c = "*em*" THEN "<em>em</em>" ELSE IF c = "`co`" THEN "<code>co</code>" ELSE c
+AlignOf(a) == IF SubSeq(a, 1, 1) = ":" /\ SubSeq(a, Len(a), Len(a)) = ":" THEN "center"
+              ELSE IF SubSeq(a, Len(a), Len(a)) = ":" THEN "right" ELSE "left"      \* the renderer writes align="left" when none is given
+RowHtml(cells, aligns, tag) ==
+    "<tr>\n" \o Join([i \in DOMAIN aligns |-> "<" \o tag \o " align=\"" \o AlignOf(aligns[i]) \o "\">"
+                                              \o (IF i <= Len(cells) THEN CellHtml(cells[i]) ELSE "") \o "</" \o tag \o ">"], "\n") \o "\n</tr>"
+TableHtml(x) == "<table>\n<thead>\n" \o RowHtml(x.hdr, x.aligns, "th") \o "\n</thead>\n<tbody>\n"
+                \o Join([i \in DOMAIN x.rows |-> RowHtml(x.rows[i], x.aligns, "td")], "\n") \o "\n</tbody>\n</table>"
+
 RECURSIVE HtmlOf(_, _)
 HtmlOf(n, tight) ==
     LET nd == nodes[n]
@@ -443,6 +493,8 @@ HtmlOf(n, tight) ==
       [] nd.t \in {"Heading", "SetextHeading"} -> "<h" \o Digits(nd.lv) \o ">" \o TextHtml(nd.tx, defs) \o "</h" \o Digits(nd.lv) \o ">"
       [] nd.t = "ThematicBreak" -> "<hr />"
       [] nd.t \in {"CodeFence", "BlockCode"} -> CodeHtml(nd.x)
+      [] nd.t = "HtmlBlock"     -> Join(nd.x.body, "\n")
+      [] nd.t = "Table"         -> TableHtml(nd.x)
       [] nd.t = "Quote"         -> "<blockquote>\n" \o inner(FALSE) \o "\n</blockquote>"
       [] nd.t = "List"          -> LET tag == IF nd.x.ordered THEN "ol" ELSE "ul"
                                        st == IF nd.x.ordered /\ nd.x.start # 1 THEN " start=\"" \o Digits(nd.x.start) \o "\"" ELSE "" IN
@@ -469,7 +521,8 @@ TypeOK ==
     /\ Depth <= MaxDepth
 
 (* every block starts on a line that has been typed, and siblings start on increasing lines *)
-LinesOrdered == \A i, j \in DOMAIN nodes : (i < j /\ nodes[i].p = nodes[j].p) => nodes[i].ln < nodes[j].ln
+LinesOrdered == \A i, j \in DOMAIN nodes : (i < j /\ nodes[i].p = nodes[j].p) =>
+                    (nodes[i].ln < nodes[j].ln \/ (nodes[i].t = "TableCell" /\ nodes[i].ln = nodes[j].ln))
 LinesTyped   == \A i \in DOMAIN nodes : i = 1 \/ (nodes[i].ln >= 1 /\ (nodes[i].ln <= Len(src) \/ ~AllStarted))
 
 (* the resolution table equals "first occurrence per base" *)
